@@ -40,6 +40,40 @@ def gen_case(rng, widths):
     }
 
 
+def gen_preserve_nest(rng, widths):
+    """xml:space inheritance below inline elements: root > inline element(s) > xml:space="preserve" element > children
+    without an own directive whose text has whitespace runs (and an xml:space="default" island now and then)"""
+    XS = trees.XML_NS
+    raw = lambda: rng.choice(["  if x:\n      ", "return  1 ", "\n  done ", " a  b ", "x\ty", "  "])  # noqa: E731
+
+    def inner(depth):
+        kids = []
+        for _ in range(rng.randint(1, 3)):
+            r = rng.random()
+            if r < 0.5:
+                if not kids or kids[-1][0] != "x":
+                    kids.append(["x", raw()])
+            elif depth < 2:
+                attrs = [[XS, "space", "default"]] if rng.random() < 0.15 else []
+                kids.append(["t", "", rng.choice(["kw", "b", "i"]), attrs, inner(depth + 1)])
+            else:
+                kids.append(["c", " c  c "])
+        return kids
+
+    pre = ["t", "", "code", [[XS, "space", "preserve"]], inner(0)]
+    node = pre
+    for _ in range(rng.choice([1, 1, 2])):
+        left = [["x", rng.choice(["the ", "see the ", "a "])]] if rng.random() < 0.7 else []
+        right = [["x", rng.choice([" sample", " x y z", " end"])]] if rng.random() < 0.7 else []
+        node = ["t", "", rng.choice(["hi", "em", "q"]), [], left + [node] + right]
+    root = ["t", "", "p", [], [["x", "see "], node, ["x", " here"]]]
+    t = c07.spec_reduce(trees.merge_text(root))
+    cands = [p for p, s in F.subtrees(t) if reduced_alone(s)]
+    path = () if rng.random() < 0.7 or not cands else rng.choice(cands)
+    return {"tree": t, "how": "parsed", "path": list(path), "indent": rng.choice(["", " ", "  ", "\t"]),
+            "align": rng.random() < 0.2, "width": rng.choice(widths + [40, 80, 120, 200]), "decls": None}
+
+
 def reread(out):
     from delb import Document, ParserOptions
 
@@ -150,6 +184,7 @@ def check(run: Run, lean: dict) -> int:
             run.notes.append(f"known finding {f['key']} no longer reproduces")
     run_cases(run, corpus(), "corpus", ok)
     run_cases(run, [gen_case(run.rng, widths) for _ in range(n)], "generated", ok)
+    run_cases(run, [gen_preserve_nest(run.rng, widths) for _ in range(n // 5)], "preserve-nesting", ok)
     return run.finish(lean, LEVEL, ASSUME, search=search)
 
 
@@ -158,7 +193,8 @@ WIDTHS = [0, 0, 1, 2, 3, 5, 7, 8, 10, 11, 13, 17, 20, 30, 79]
 
 def search(run: Run):
     probe = Run(run.prop, run.tier, run.seed)
-    cands = [m["case"] for m in run.mismatches] + corpus() + [gen_case(run.rng, WIDTHS) for _ in range(15000)]
+    cands = ([m["case"] for m in run.mismatches] + corpus() + [gen_preserve_nest(run.rng, WIDTHS) for _ in range(3000)]
+             + [gen_case(run.rng, WIDTHS) for _ in range(15000)])
     for c in cands:
         try:
             before, res = F.serialize_impl(c)
